@@ -340,9 +340,10 @@ theorem run_sto_frame (o : Oracle) : ∀ (p : Stmt) (s : St) (x : Loc),
     · exact h1
 
 /-- invariant / exit reasoning for `iter` -/
-theorem iter_inv (f : St → St × Outcome) (I E : St → Prop)
-    (h : ∀ s, I s → ((f s).2 = .ok → I (f s).1) ∧ ((f s).2 ≠ .ok → E (f s).1)) :
-    ∀ n s, I s → ((iter f n s).2 = .ok → I (iter f n s).1) ∧ ((iter f n s).2 ≠ .ok → E (iter f n s).1) := by
+theorem iter_inv (f : St → St × Outcome) (I : St → Prop) (E : Outcome → St → Prop)
+    (h : ∀ s, I s → ((f s).2 = .ok → I (f s).1) ∧ ((f s).2 ≠ .ok → E (f s).2 (f s).1)) :
+    ∀ n s, I s → ((iter f n s).2 = .ok → I (iter f n s).1) ∧
+      ((iter f n s).2 ≠ .ok → E (iter f n s).2 (iter f n s).1) := by
   intro n
   induction n with
   | zero => intro s hs; simp [iter, hs]
@@ -359,15 +360,34 @@ theorem iter_inv (f : St → St × Outcome) (I E : St → Prop)
 
 /-! ## soundness of the abstract interpreter -/
 
-/-- what `ana` promises about one run -/
-def Sound (o : Oracle) (orig : Env) (p : Stmt) (a : Abs) (s : St) : Prop :=
-  ((run o p s).2 = .ok → GamO orig (ana p a).1 (run o p s).1) ∧
-  ((run o p s).2 ≠ .ok → GamO orig (ana p a).2 (run o p s).1)
+theorem sel_join_left {orig : Env} {x y : Res} {oc : Outcome} {s : St}
+    (h : GamO orig (x.sel oc) s) : GamO orig ((x.join y).sel oc) s := by
+  cases oc <;> exact gamO_join_left h
 
-theorem sound_onO {o : Oracle} {orig : Env} {p : Stmt} (ih : ∀ a s, Gam orig a s → Sound o orig p a s) {x : Option Abs} {s : St}
-    (h : GamO orig x s) :
-    ((run o p s).2 = .ok → GamO orig (onO (ana p) x).1 (run o p s).1) ∧
-    ((run o p s).2 ≠ .ok → GamO orig (onO (ana p) x).2 (run o p s).1) := by
+theorem sel_join_right {orig : Env} {x y : Res} {oc : Outcome} {s : St}
+    (h : GamO orig (y.sel oc) s) : GamO orig ((x.join y).sel oc) s := by
+  cases oc <;> exact gamO_join_right h
+
+/-- outcome of `try: (ends with oa) finally: (ends with ob)` -/
+def fin (oa : Outcome) : Outcome → Outcome
+  | .ok => oa
+  | ob => ob
+
+/-- the finaliser's contribution: it ran from a state reached with outcome `oa` and ended with `ob` -/
+theorem sel_after {orig : Env} {q : Res} {oa ob : Outcome} {s : St}
+    (h : GamO orig (q.sel ob) s) :
+    GamO orig ((q.after oa).sel (fin oa ob)) s := by
+  cases oa <;> cases ob <;>
+    first | exact h | exact gamO_join_left h | exact gamO_join_right h
+
+/-- what `ana` promises about one run: the component of its result that belongs to the outcome of
+the run describes the state reached -/
+def Sound (o : Oracle) (orig : Env) (p : Stmt) (a : Abs) (s : St) : Prop :=
+  GamO orig ((ana p a).sel (run o p s).2) (run o p s).1
+
+theorem sound_onO {o : Oracle} {orig : Env} {p : Stmt} (ih : ∀ a s, Gam orig a s → Sound o orig p a s)
+    {x : Option Abs} {s : St} (h : GamO orig x s) :
+    GamO orig ((onO (ana p) x).sel (run o p s).2) (run o p s).1 := by
   cases x with
   | none => exact absurd h id
   | some a => exact ih a s h
@@ -376,24 +396,23 @@ theorem ana_sound (o : Oracle) (orig : Env) : ∀ (p : Stmt) (a : Abs) (s : St),
     Gam orig a s → Sound o orig p a s := by
   intro p
   induction p with
-  | skip => intro a s h; simp [Sound, run, ana, GamO, h]
+  | skip => intro a s h; exact h
   | fault i =>
     intro a s h
-    simp only [Sound, run, ana, GamO]
-    exact ⟨fun _ => gam_next h, fun _ => gam_next h⟩
-  | raise => intro a s h; simp [Sound, run, ana, GamO, h]
-  | ret => intro a s h; simp [Sound, run, ana, GamO, h]
-  | need v => intro a s h; simp only [Sound, run, ana, GamO]; exact ⟨fun _ => h, fun _ => h⟩
-  | save x v =>
+    simp only [Sound, run, ana]
+    split <;> exact gam_next h
+  | raise => intro a s h; exact h
+  | ret => intro a s h; exact h
+  | need v =>
     intro a s h
-    simp only [Sound, run, ana, GamO]
-    exact ⟨fun _ => gam_bind x v h, fun e => absurd rfl e⟩
+    simp only [Sound, run, ana]
+    split <;> exact h
+  | save x v => intro a s h; exact gam_bind x v h
   | load x v =>
     intro a s h
     simp only [Sound, run, ana]
     split
     · next t ht =>
-      refine ⟨fun _ => ?_, fun e => absurd rfl e⟩
       have hb : Gam orig (a.bind x v) { s with sto := s.sto.set x (.str t) } := by
         have hb0 := gam_bind x v h
         rw [ht] at hb0
@@ -405,11 +424,10 @@ theorem ana_sound (o : Oracle) (orig : Env) : ∀ (p : Stmt) (a : Abs) (s : St),
       rcases hy with rfl | hy
       · simp [Store.set, Val.isStr]
       · exact b4 y hy
-    · exact ⟨fun e => by simp at e, fun _ => h⟩
+    · exact h
   | setNone x =>
     intro a s h
-    simp only [Sound, run, ana, GamO]
-    refine ⟨fun _ => ?_, fun e => absurd rfl e⟩
+    simp only [Sound, run, ana]
     obtain ⟨b1, b2, b3, b4⟩ := gam_forget x Val.none h
     refine ⟨b1, b2, ?_, b4⟩
     intro y hy
@@ -417,79 +435,67 @@ theorem ana_sound (o : Oracle) (orig : Env) : ∀ (p : Stmt) (a : Abs) (s : St),
     rcases hy with rfl | hy
     · simp [Store.set]
     · exact b3 y hy
-  | kill x i =>
-    intro a s h
-    simp only [Sound, run, ana, GamO]
-    exact ⟨fun _ => gam_forget x _ (gam_next h), fun e => absurd rfl e⟩
+  | kill x i => intro a s h; exact gam_forget x _ (gam_next h)
   | del v =>
     intro a s h
     simp only [Sound, run, ana]
-    split
-    · exact ⟨fun _ => gam_unset v h, fun e => absurd rfl e⟩
-    · exact ⟨fun e => by simp at e, fun _ => h⟩
-  | pop v =>
-    intro a s h
-    simp only [Sound, run, ana]
-    exact ⟨fun _ => gam_unset v h, fun e => absurd rfl e⟩
+    cases hv : s.env v with
+    | some t => exact gam_unset v h
+    | none => exact h
+  | pop v => intro a s h; exact gam_unset v h
   | setExpr v i =>
     intro a s h
     simp only [Sound, run, ana]
     split
-    · exact ⟨fun _ => gam_markDirty v _ (gam_next h), fun e => absurd rfl e⟩
-    · exact ⟨fun e => by simp at e, fun _ => gam_next h⟩
+    · exact gam_markDirty v _ (gam_next h)
+    · exact gam_next h
   | setFrom v x =>
     intro a s h
     simp only [Sound, run, ana]
-    split
-    · next t ht =>
-      refine ⟨fun _ => ?_, fun e => absurd rfl e⟩
+    have hraise : (s.sto x).isStr ≠ true → GamO orig (if a.isStr.contains x = true then none else some a) s := by
+      intro hne
+      by_cases hc : a.isStr.contains x = true
+      · have hm : x ∈ a.isStr := by simpa using hc
+        have hs := h.2.2.2 x hm
+        exact absurd hs hne
+      · rw [if_neg hc]; exact h
+    cases hv : s.sto x with
+    | str t =>
       by_cases hc : a.holds.contains (x, v) = true
-      · simp only [hc, if_true, GamO]
-        have hm : (x, v) ∈ a.holds := by simpa using hc
+      · have hm : (x, v) ∈ a.holds := by simpa using hc
         have h1 := h.2.1 x v hm
-        rw [ht] at h1
+        rw [hv] at h1
         have hov : some t = orig v := by
           cases ho : orig v with
           | none => rw [ho] at h1; simp [Val.ofOpt] at h1
           | some u => rw [ho] at h1; simp [Val.ofOpt] at h1; rw [h1]
-        exact gam_markClean v (some t) hov h
-      · simp only [hc, GamO]; exact gam_markDirty v _ h
-    · next ht =>
-      refine ⟨fun e => by simp at e, fun _ => ?_⟩
-      by_cases hc : a.isStr.contains x = true
-      · have hm : x ∈ a.isStr := by simpa using hc
-        have hs := h.2.2.2 x hm
-        cases hv : s.sto x with
-        | str t => exact absurd hv (ht t)
-        | none => rw [hv] at hs; simp [Val.isStr] at hs
-        | other => rw [hv] at hs; simp [Val.isStr] at hs
-      · simp only [hc]; exact h
+        have := gam_markClean v (some t) hov h
+        simp only [Res.sel, GamO, hc, if_true]; exact this
+      · have := gam_markDirty v (some t) h
+        simp only [Res.sel, GamO, hc]; exact this
+    | none => exact hraise (by rw [hv]; simp [Val.isStr])
+    | other => exact hraise (by rw [hv]; simp [Val.isStr])
   | seq p q ihp ihq =>
     intro a s h
     have hp := ihp a s h
     simp only [Sound, run, ana] at hp ⊢
-    split
-    · next s' heq =>
-      rw [heq] at hp
-      have hq := sound_onO ihq (hp.1 rfl)
-      exact ⟨fun e => hq.1 e, fun e => gamO_join_right (hq.2 e)⟩
-    · next r hne =>
-      have : (run o p s).2 ≠ .ok := by
-        intro e; exact hne (run o p s).1 (by rw [← e])
-      exact ⟨fun e => absurd e this, fun _ => gamO_join_left (hp.2 this)⟩
+    rcases hr : run o p s with ⟨s', oc⟩
+    rw [hr] at hp
+    cases oc with
+    | ok => exact sel_join_right (sound_onO ihq hp)
+    | raised => exact sel_join_left hp
+    | ret => exact sel_join_left hp
   | choice i p q ihp ihq =>
     intro a s h
     simp only [Sound, run, ana]
     split
-    · have hp := ihp a s.next (gam_next h)
-      exact ⟨fun e => gamO_join_left (hp.1 e), fun e => gamO_join_left (hp.2 e)⟩
-    · have hq := ihq a s.next (gam_next h)
-      exact ⟨fun e => gamO_join_right (hq.1 e), fun e => gamO_join_right (hq.2 e)⟩
+    · exact sel_join_left (ihp a s.next (gam_next h))
+    · exact sel_join_right (ihq a s.next (gam_next h))
   | ifNone x p q ihp ihq =>
     intro a s h
     simp only [Sound, run, ana]
-    split
-    · next hx =>
+    by_cases hx : s.sto x = Val.none
+    · rw [if_pos hx]
       have h' : Gam orig { a with isNone := x :: a.isNone } s := by
         refine ⟨h.1, h.2.1, ?_, h.2.2.2⟩
         intro y hy
@@ -497,9 +503,8 @@ theorem ana_sound (o : Oracle) (orig : Env) : ∀ (p : Stmt) (a : Abs) (s : St),
         rcases hy with rfl | hy
         · exact hx
         · exact h.2.2.1 y hy
-      have hp := ihp _ s h'
-      exact ⟨fun e => gamO_join_left (hp.1 e), fun e => gamO_join_left (hp.2 e)⟩
-    · next hx =>
+      exact sel_join_left (ihp _ s h')
+    · rw [if_neg hx]
       have h' : Gam orig (if a.holds.any (fun p => p.1 = x) then { a with isStr := x :: a.isStr } else a) s := by
         by_cases hh : a.holds.any (fun p => p.1 = x) = true
         · rw [if_pos hh]
@@ -517,88 +522,91 @@ theorem ana_sound (o : Oracle) (orig : Env) : ∀ (p : Stmt) (a : Abs) (s : St),
             | some u => rw [ho] at h1; rw [h1]; rfl
           · exact h.2.2.2 y hy
         · rw [if_neg hh]; exact h
-      have hq := ihq _ s h'
-      exact ⟨fun e => gamO_join_right (hq.1 e), fun e => gamO_join_right (hq.2 e)⟩
+      exact sel_join_right (ihq _ s h')
   | ifSet v p q ihp ihq =>
     intro a s h
     simp only [Sound, run, ana]
     split
-    · have hp := ihp a s h
-      exact ⟨fun e => gamO_join_left (hp.1 e), fun e => gamO_join_left (hp.2 e)⟩
-    · have hq := ihq a s h
-      exact ⟨fun e => gamO_join_right (hq.1 e), fun e => gamO_join_right (hq.2 e)⟩
+    · exact sel_join_left (ihp a s h)
+    · exact sel_join_right (ihq a s h)
   | loop i body ih =>
     intro a s h
     simp only [Sound, run, ana]
-    by_cases hle : leO (ana body a).1 a = true
+    by_cases hle : leO (ana body a).n a = true
     · rw [if_pos hle]
-      have key := iter_inv (run o body) (fun t => Gam orig a t) (fun t => GamO orig (ana body a).2 t)
+      have key := iter_inv (run o body) (fun t => Gam orig a t)
+        (fun oc t => GamO orig ((ana body a).sel oc) t)
         (by
           intro t ht
-          exact ⟨fun e => gamO_le hle ((ih a t ht).1 e), fun e => (ih a t ht).2 e⟩)
+          have hb := ih a t ht
+          simp only [Sound] at hb
+          refine ⟨fun e => ?_, fun _ => hb⟩
+          rw [e] at hb
+          exact gamO_le hle hb)
         (o.iters s.tick i) s.next (gam_next h)
-      exact ⟨fun e => key.1 e, fun e => key.2 e⟩
+      rcases hr : iter (run o body) (o.iters s.tick i) s.next with ⟨s', oc⟩
+      rw [hr] at key
+      cases oc with
+      | ok => exact key.1 rfl
+      | raised => exact key.2 (by simp)
+      | ret => exact key.2 (by simp)
     · rw [if_neg hle]
       have h0 : Gam orig (a.widen (writes body) (assigns body)) s.next :=
         gam_widen _ _ (gam_next h)
       have key := iter_inv (run o body)
         (fun t => Gam orig (a.widen (writes body) (assigns body)) t)
-        (fun t => GamO orig (ana body (a.widen (writes body) (assigns body))).2 t)
+        (fun oc t => GamO orig ((ana body (a.widen (writes body) (assigns body))).sel oc) t)
         (by
           intro t ht
-          refine ⟨fun _ => ?_, fun e => (ih _ t ht).2 e⟩
+          refine ⟨fun _ => ?_, fun _ => ih _ t ht⟩
           exact gam_widen_frame _ _ (fun v hv => run_env_frame o body t v hv)
             (fun x hx => run_sto_frame o body t x hx) ht)
         (o.iters s.tick i) s.next h0
-      exact ⟨fun e => key.1 e, fun e => key.2 e⟩
+      rcases hr : iter (run o body) (o.iters s.tick i) s.next with ⟨s', oc⟩
+      rw [hr] at key
+      cases oc with
+      | ok => exact key.1 rfl
+      | raised => exact key.2 (by simp)
+      | ret => exact key.2 (by simp)
   | tryFinally p q ihp ihq =>
     intro a s h
     have hp := ihp a s h
     simp only [Sound, run, ana] at hp ⊢
-    by_cases hok : (run o p s).2 = .ok
-    · have hq := sound_onO ihq (hp.1 hok)
-      split
-      · next s'' heq =>
-        rw [heq] at hq
-        rw [hok]
-        exact ⟨fun _ => hq.1 rfl, fun e => absurd rfl e⟩
-      · next r hne =>
-        have : (run o q (run o p s).1).2 ≠ .ok := by
-          intro e; exact hne (run o q (run o p s).1).1 (by rw [← e])
-        exact ⟨fun e => absurd e this, fun _ => gamO_join_left (hq.2 this)⟩
-    · have hq := sound_onO ihq (hp.2 hok)
-      split
-      · next s'' heq =>
-        rw [heq] at hq
-        exact ⟨fun e => absurd e hok, fun _ => gamO_join_right (gamO_join_left (hq.1 rfl))⟩
-      · next r hne =>
-        have : (run o q (run o p s).1).2 ≠ .ok := by
-          intro e; exact hne (run o q (run o p s).1).1 (by rw [← e])
-        exact ⟨fun e => absurd e this, fun _ => gamO_join_right (gamO_join_right (hq.2 this))⟩
+    rcases hr : run o p s with ⟨s', oa⟩
+    rw [hr] at hp
+    have hq := sound_onO ihq hp
+    rcases hrq : run o q s' with ⟨s'', ob⟩
+    rw [hrq] at hq
+    have key := sel_after (oa := oa) hq
+    cases oa <;> cases ob <;>
+      first
+      | exact sel_join_left key
+      | exact sel_join_right (sel_join_left key)
+      | exact sel_join_right (sel_join_right key)
   | tryExcept i p hh ihp ihh =>
     intro a s h
     have hp := ihp a s h
     simp only [Sound, run, ana] at hp ⊢
-    split
-    · next s' heq =>
-      rw [heq] at hp
-      have he : GamO orig (ana p a).2 s' := hp.2 (by simp)
+    rcases hr : run o p s with ⟨s', oc⟩
+    rw [hr] at hp
+    cases oc with
+    | ok => exact sel_join_left hp
+    | ret => exact sel_join_left hp
+    | raised =>
+      simp only []
       split
-      · have hq := sound_onO ihh (gamO_congr (s := s') (s' := s'.next) rfl rfl he)
-        exact ⟨fun e => gamO_join_right (hq.1 e), fun e => gamO_join_right (hq.2 e)⟩
-      · exact ⟨fun e => by simp at e, fun _ => gamO_join_left (gamO_congr (s := s') (s' := s'.next) rfl rfl he)⟩
-    · next r hne =>
-      exact ⟨fun e => gamO_join_left (hp.1 e), fun e => gamO_join_left (hp.2 e)⟩
+      · exact sel_join_right (sound_onO ihh (gamO_congr (s := s') (s' := s'.next) rfl rfl hp))
+      · exact sel_join_left (gamO_congr (s := s') (s' := s'.next) rfl rfl hp)
   | scope p ihp =>
     intro a s h
     have hp := ihp a s h
     simp only [Sound, run, ana] at hp ⊢
-    split
-    · next s' heq =>
-      rw [heq] at hp
-      exact ⟨fun _ => gamO_join_right (hp.2 (by simp)), fun e => absurd rfl e⟩
-    · next r hne =>
-      exact ⟨fun e => gamO_join_left (hp.1 e), fun e => hp.2 e⟩
+    rcases hr : run o p s with ⟨s', oc⟩
+    rw [hr] at hp
+    cases oc with
+    | ok => exact gamO_join_left hp
+    | ret => exact gamO_join_right hp
+    | raised => exact hp
 
 theorem gamO_clean {orig : Env} {x : Option Abs} {s : St} (h : GamO orig x s) (hc : cleanO x = true) : s.env = orig := by
   cases x with
@@ -619,14 +627,16 @@ theorem restores_sound (p : Stmt) (vs : List Var) (h : restores p vs = true) :
     ∀ (o : Oracle) (s : St), (run o p s).1.env = s.env := by
   intro o s
   simp only [restores, Bool.and_eq_true] at h
-  obtain ⟨⟨_, hn⟩, he⟩ := h
+  obtain ⟨⟨⟨_, hn⟩, he⟩, hr⟩ := h
   have h0 : Gam s.env Abs.init s :=
     ⟨fun _ _ => rfl, fun _ _ hx => by simp [Abs.init] at hx, fun _ hx => by simp [Abs.init] at hx,
      fun _ hx => by simp [Abs.init] at hx⟩
   have hs := ana_sound o s.env p Abs.init s h0
-  by_cases hok : (run o p s).2 = .ok
-  · exact gamO_clean (hs.1 hok) hn
-  · exact gamO_clean (hs.2 hok) he
+  simp only [Sound] at hs
+  cases hoc : (run o p s).2 <;> rw [hoc] at hs
+  · exact gamO_clean hs hn
+  · exact gamO_clean hs he
+  · exact gamO_clean hs hr
 
 /-- **other_vars_untouched** - a variable that the program does not write syntactically
 is never changed, not even temporarily visible at exit, whatever happens. -/
@@ -640,7 +650,7 @@ theorem restores_only_touches (p : Stmt) (vs : List Var) (h : restores p vs = tr
     ∀ v, v ∈ writes p → v ∈ vs := by
   intro v hv
   simp only [restores, Bool.and_eq_true, List.all_eq_true] at h
-  simpa using h.1.1 v hv
+  simpa using h.1.1.1 v hv
 
 /-! ## non-vacuity: the checker accepts a guarded program, rejects the unguarded one,
 and the rejected one really leaks under a concrete fault schedule -/
